@@ -246,7 +246,7 @@ func scenarios() []scenario {
 	add("sessionid13", "flipped", V13, func(w *hs.WireHello, s *tls.VerifServerScript, _ func(int) int) (string, bool, bool) {
 		sid := append([]byte{}, w.SessionID...)
 		if len(sid) == 0 {
-			sid = []byte{1, 2, 3, 4}
+			sid = []byte("verif-unsolicited-session-id-32b") // the hello sent none: a full-size id nobody asked for
 		} else {
 			sid[len(sid)-1] ^= 0x80
 		}
@@ -311,7 +311,7 @@ func scenarios() []scenario {
 		hrrFirst(w, s)
 		sid := append([]byte{}, w.SessionID...)
 		if len(sid) == 0 {
-			sid = []byte{1, 2, 3, 4}
+			sid = []byte("verif-unsolicited-session-id-32b")
 		} else {
 			sid[0] ^= 0x01
 		}
@@ -547,6 +547,10 @@ func edited(pr hs.Parrot, what string) client {
 				exts = append(exts, e)
 			}
 			uc.Extensions = exts
+			if what == "clear-sid" {
+				// no middlebox-compatibility mode / QUIC style: the hello goes out with an empty legacy_session_id
+				uc.HandshakeState.Hello.SessionId = nil
+			}
 			if what == "drop-suite" {
 				var cs []uint16
 				for _, id := range uc.HandshakeState.Hello.CipherSuites {
@@ -622,10 +626,11 @@ func sequenceClients(quick bool) []client {
 		cls = append(cls, represet(must("Edge_106"), must("IOS_14")), represet(must("Chrome_131"), must("Firefox_65")), represet(must("Safari_16_0"), must("Chrome_133")))
 	}
 	for _, b := range bases {
-		for _, what := range []string{"drop-certcomp", "drop-alpn", "drop-keyshare", "drop-group", "drop-suite", "drop-keyshare-ext", "drop-groups-ext"} {
+		for _, what := range []string{"drop-certcomp", "drop-alpn", "drop-keyshare", "drop-group", "drop-suite", "drop-keyshare-ext", "drop-groups-ext", "clear-sid"} {
 			cls = append(cls, edited(must(b), what))
 		}
 	}
+	cls = append(cls, edited(hs.Parrot{Name: "Golang", ID: tls.HelloGolang}, "clear-sid"))
 	return cls
 }
 
@@ -682,7 +687,8 @@ func run(c *vh.Ctx) {
 	for ci, cl := range sequenceClients(quick) {
 		for si, sc := range scs {
 			if quick && sc.stale == nil && sc.kind != "honest13" && sc.kind != "honest12" && !(sc.kind == "certcomp" && sc.variant == "unoffered") &&
-				!(sc.kind == "alpn13" && sc.variant == "unoffered") {
+				!(sc.kind == "alpn13" && sc.variant == "unoffered") && !(strings.HasSuffix(cl.name, ":clear-sid") && strings.HasPrefix(sc.kind, "sessionid13")) &&
+				!(strings.HasSuffix(cl.name, ":clear-sid") && sc.kind == "honest13-afterhrr") {
 				continue
 			}
 			jobs = append(jobs, job{cl, sc, c.Seed*1000003 + 555557 + int64(ci)*1013 + int64(si)})
